@@ -245,3 +245,6 @@ Section Rules2.
       intros s Hs. cbv beta in Hs. rewrite ltbR_false by lra. reflexivity.
   Qed.
 End Rules2.
+
+Lemma ltbR_ge a b : b <= a -> ltbR a b = false.
+Proof. intros H. apply ltbR_false. lra. Qed.
